@@ -5,7 +5,7 @@
 From Coq Require Import ZArith List Bool Sorting.Sorted.
 From GV Require Import Base.CSem Spec.Kmers Spec.C01 Model.C01 Proofs.C01Defs Proofs.C01Strand
   Proofs.C01Acc Proofs.C01.
-From GV Require Import Gen.PyFuncs Proofs.PyTie.
+From GV Require Import Gen.PyC01 Proofs.PyTieC01.
 Import ListNotations.
 Open Scope Z_scope.
 
